@@ -121,6 +121,9 @@ def run(pid, tier):
             unsupported += 1
     res = solve_oracle.judge(pid + '-o', recs) if recs else None
     all_unassigned = sum(1 for r in recs if not r['tours'])
+    recs_by_rid = {r['id']: r for r in recs}
+    origin_known = {f['key'] for f in common.load_findings() if f.get('status') == 'open' and f['property'] in ('C01', 'C02', 'C03')}
+    foreign_known = {}
     if res:
         reach_bad = {rid for name, _, rid in res.fails if name == 'Reach'}
         for name, idx, rid in res.fails:
@@ -131,6 +134,14 @@ def run(pid, tier):
                 continue
             if name == 'LimitDuration' and not cases_by_id[cid].get('travel_only'):
                 continue   # C01 known finding
+            # a recorded finding of C01-C03 under its own key (stratum computed as in solve_oracle.py) is not a consequence of the interruption
+            origin = next((p_ for p_, names in solve_oracle.ATTR.items() if name in names), None)
+            rec_ = recs_by_rid.get(rid)
+            if origin and rec_ is not None:
+                okey = '%s/%s/%s' % (origin, name, solve_oracle.qualifier(name, cases_by_id[cid], rec_))
+                if okey in origin_known:
+                    foreign_known[okey] = foreign_known.get(okey, 0) + 1
+                    continue
             verdict.add('C07/Valid/%s' % name, 'solution returned by interrupted run %s violates %s' % (rid, name),
                         {'case': cases_by_id[cid], 'run': rid, 'invariant': name})
     rc = verdict.finish()
@@ -146,7 +157,7 @@ def run(pid, tier):
         'runs_by_mode': dict(modes), 'max_poll_index': max(r['k'] for r in runs), 'solutions_judged_by_VrpModel': len(recs),
         'solutions_with_everything_unassigned': all_unassigned, 'unsupported_projection': unsupported, 'invalid_cases': invalid,
         'model_check': {'module': 'Solver', 'cfg': 'MC_Solver.cfg', 'states': mc.distinct, 'transitions': mc.generated},
-        'trace_events': sum(len(t['events']) for t in trace), 'known_finding_hits': {k: len(v) for k, v in verdict.known_hits.items()},
+        'trace_events': sum(len(t['events']) for t in trace), 'recorded_findings_of_C01_C03_met_and_not_judged_here': foreign_known, 'known_finding_hits': {k: len(v) for k, v in verdict.known_hits.items()},
     }
     common.write_evidence(pid, tier, 'model_checking', cov, time.time() - t0, len(verdict.violations),
                           ['runs are single threaded (1 pool x 1 thread) so that the event order is the call order',
